@@ -804,6 +804,23 @@ pub async fn run_op2(ctx: &Ctx, op: AOp, info: &Rc<TaskInfo>, handle: Handle) {
                 None
             };
             let id1 = o1.id();
+            if (op.b >> 3) % 3 == 0 {
+                // A short-lived listener: started for the current entities (one exists now) and
+                // dropped at once, while its events are still in flight. Nobody may be confused by
+                // the late messages.
+                if let Ok(mut l2) = blocked(info, "Handle::create_bus_listener", true, handle.create_bus_listener()).await {
+                    let _ = l2.add_filter(aldrin_core::BusListenerFilter::object(mine));
+                    let sc = if (op.b >> 5) % 2 == 0 { aldrin_core::BusListenerScope::Current } else { aldrin_core::BusListenerScope::All };
+                    if (op.b >> 6) % 2 == 0 {
+                        let _ = blocked(info, "BusListener::start", true, l2.start(sc)).await;
+                    } else {
+                        // The start request itself is abandoned after one poll.
+                        let _ = crate::api_app::cancelling(info, l2.start(sc), 1).await;
+                    }
+                    drop(l2);
+                    ctx.probe("listener-dropped-with-events-in-flight");
+                }
+            }
             let destroy = op.d % 2 == 0;
             if destroy {
                 if let Some(s) = &svc {
